@@ -42,13 +42,13 @@ Definition w_bad_state : state := fold_left apply_op w_bad_ops (fold_left apply_
    request by 50 that is pending, then executed (accepted 1000000 / 1000000, 500000 pool coins minted),
    200000 of them farmed *)
 Definition w_pool_ops : list op :=
-  [OCreatePair 1 90 1 2; OCreatePool 1 90 1 2000000 2000000 true 1000000; ODeposit 1 50 1 1000000 1000000].
+  [OCreatePair 1 90 1 2; OCreatePool 1 90 1 2000000 2000000 true 1000000; ODeposit 1 50 1 [(1, 1000000); (2, 1000000)]].
 Definition w_pool_pending : state := fold_left apply_op w_pool_ops (fold_left apply_op (w_setup 1) init).
 Definition w_pool_ops2 : list op :=
-  w_pool_ops ++ [OEnd 2 11 [mkAppEnv 1 [] [(1, 1, 1000000, 1000000, 500000)] []]; OBegin; OFarm 1 50 1 200000 20].
+  w_pool_ops ++ [OEnd 2 11 [mkAppEnv 1 [] [(1, 1, 1000000, 1000000, 500000)] []]; OBegin; OFarm 1 50 1 1101 200000 20].
 Definition w_pool_farmed : state := fold_left apply_op w_pool_ops2 (fold_left apply_op (w_setup 1) init).
 (* the whole supply of a pool is withdrawn: the pool is disabled *)
 Definition w_drain_ops : list op :=
-  [OCreatePair 1 90 1 2; OCreatePool 1 90 1 2000000 2000000 true 1000000; OWithdraw 1 90 1 1000000;
+  [OCreatePair 1 90 1 2; OCreatePool 1 90 1 2000000 2000000 true 1000000; OWithdraw 1 90 1 1101 1000000;
    OEnd 2 11 [mkAppEnv 1 [] [] [(1, 1, 2000000, 2000000)]]].
 Definition w_drained : state := fold_left apply_op w_drain_ops (fold_left apply_op (w_setup 1) init).
